@@ -41,7 +41,7 @@ func (a raceAccess) firstReal() (fn, file string) {
 	return "", ""
 }
 
-func parseRaceReports(text string) []sim.Violation {
+func parseRaceReports(prop, text string) []sim.Violation {
 	var vs []sim.Violation
 	for _, blk := range strings.Split(text, "==================") {
 		if !strings.Contains(blk, "WARNING: DATA RACE") {
@@ -79,16 +79,26 @@ func parseRaceReports(text string) []sim.Violation {
 		}
 		f1, p1 := acc[0].firstReal()
 		f2, p2 := acc[1].firstReal()
-		if !strings.Contains(p1, "/repo/") || !strings.Contains(p2, "/repo/") {
-			continue // at least one side is simulator / check code: not a statement about gmqtt
+		if !strings.Contains(p1, "/repo/") || !strings.Contains(p2, "/repo/") || strings.Contains(p1, "zz_verif_") || strings.Contains(p2, "zz_verif_") {
+			continue // at least one side is simulator / check code (overlay-added accessors included): not a statement about gmqtt
+		}
+		if raceArtefact(f1) || raceArtefact(f2) {
+			continue
 		}
 		fs := []string{trimFn(f1), trimFn(f2)}
 		sort.Strings(fs)
 		short := func(p string) string { return strings.TrimPrefix(p, "/repo/") }
 		msg := fmt.Sprintf("data race in gmqtt (no happens-before between the two accesses): %s in %s at %s  vs  %s in %s at %s", strings.SplitN(acc[0].kind, " at ", 2)[0], f1, short(p1), strings.ToLower(strings.SplitN(acc[1].kind, " at ", 2)[0]), f2, short(p2))
-		vs = append(vs, viol("C15", "race", "race:"+fs[0]+"<>"+fs[1], "%s", msg))
+		vs = append(vs, viol(prop, "race", "race:"+fs[0]+"<>"+fs[1], "%s", msg))
 	}
 	return vs
+}
+
+// raceArtefact: accesses that can only collide because the simulation runs several broker processes in one
+// address space. federation.New assigns the package-level logger (every other write of New goes to the
+// object it is about to return); two plugin instances never share a process outside the simulation.
+func raceArtefact(fn string) bool {
+	return strings.HasSuffix(strings.TrimSuffix(fn, "()"), "plugin/federation.New")
 }
 
 func trimFn(f string) string {
@@ -98,7 +108,7 @@ func trimFn(f string) string {
 }
 
 // harvestRaces returns the gmqtt data races reported by the race detector since the last call.
-func harvestRaces() []sim.Violation {
+func harvestRaces(prop string) []sim.Violation {
 	if !simrt.RaceOn {
 		return nil
 	}
@@ -118,7 +128,7 @@ func harvestRaces() []sim.Violation {
 			continue
 		}
 		raceLogOff[f] = int64(len(b))
-		vs = append(vs, parseRaceReports(string(b[off:]))...)
+		vs = append(vs, parseRaceReports(prop, string(b[off:]))...)
 	}
 	return vs
 }
